@@ -113,6 +113,18 @@ def handle1 (op : String) (args : List Sexp) : Option String := do
             | _ => Option.none
           pure (reply (.ok (.list (stackReplies s fn.chain {} cs))))
       | _ => Option.none
+  | "stackhist2", [s, steps] =>
+      -- `(L (T S:wrap S:class (D params)) | (T S:call (L args) (D kw)) ...)`: constructor applications between the calls
+      let s ← sigOf (← Val.ofSexp s)
+      match ← Val.ofSexp steps with
+      | .list steps =>
+          let steps ← steps.mapM fun
+            | .tuple [.cell (.str "wrap"), .cell (.str c), .dict p] => (clsOf c).map fun c => HStep.wrap c p
+            | .tuple [.cell (.str "call"), a, k] => (callOf a k).map HStep.call
+            | _ => Option.none
+          let out := runSteps s recBody Call.hasArr { chain := [], base := 0 } {} steps
+          pure (reply (.ok (.list (out.map fun r => .tuple [resVal r.1, .cell (.int r.2)]))))
+      | _ => Option.none
   | "mk", [ds] =>
       let ds ← decosOf (← Val.ofSexp ds)
       let fn := mkMany ds { chain := [], base := 0 }
